@@ -11,7 +11,7 @@ namespace XotModel
 def Offers (L : List (Nat × Nat)) (ns : Nat) (attr : Bool) : Prop :=
   ∃ q, (q, ns) ∈ L ∧ (attr = true → q ≠ Env.emptyPrefix)
 
-theorem mem_fullnameInfoNew (d L : List (Nat × Nat)) (b : Nat × Nat) :
+theorem fc_mem_fullnameInfoNew (d L : List (Nat × Nat)) (b : Nat × Nat) :
     b ∈ fullnameInfoNew d L ↔ b ∈ d ∨ (b ∈ L ∧ ∀ x ∈ d, x.1 ≠ b.1) := by
   unfold fullnameInfoNew
   simp only [List.mem_append, List.mem_filter, Bool.not_eq_true', List.any_eq_false, beq_iff_eq]
